@@ -55,7 +55,8 @@ class Slice:
         self.roots = [S1, S2, S3, R1, S4, S5, S6]
         self.arrays = [
             X.Float64[:, 3], X.Int16[2:1, 3:0], X.Int64[:, :, 2], S1[:], S2[:], S2[2], X.UInt8[5], X.Float32[:],
-            X.String[:],
+            X.String[:], X.Int32[None:1, None:2, None:0], X.Int8[2:2, 3:0, 2:1], X.Int8[:][:], X.Float32[:][2],
+            X.String[2:1, 3:0], X.String[:, 2], S2[2, 2],
         ]
         if tier == "thorough":
             self.arrays += [
@@ -70,7 +71,7 @@ class Slice:
         if X.scalar.is_scalar(cls):
             return scalar_value(cls, rnd)
         if cls is X.String:
-            return rnd.choice(["", "a", "hello", "héllo wörld", "x" * 9, "1234567"])
+            return rnd.choice(["", "a", "hello", "héllo wörld", "x" * 9, "1234567", "ééééééé", "束流光学", "αβγδεζηθι", "12345678", "ααααααα"])
         if X.struct.is_struct(cls):
             return {f.name: self.value(f.ftype, rnd, depth + 1) for f in cls._fields}
         if X.array.is_array(cls):
@@ -79,7 +80,19 @@ class Slice:
                 import numpy as np
 
                 return np.zeros(shape, dtype=cls._itemtype._dtype)
-            return self._nested(cls._itemtype, shape, rnd, depth)
+            v = self._nested(cls._itemtype, shape, rnd, depth)
+            if len(shape) > 1 and not X.scalar.is_scalar(cls._itemtype):
+                # N-d arrays of compound items take their value as an object ndarray
+                import numpy as np
+
+                a = np.empty(shape, dtype=object)
+                for idx in np.ndindex(*shape):
+                    x = v
+                    for i in idx:
+                        x = x[i]
+                    a[idx] = x
+                return a
+            return v
         if X.ref.is_ref(cls):
             return self.value(cls._reftype, rnd, depth + 1)
         if X.ref.is_unionref(cls):
